@@ -17,7 +17,8 @@
 EXTENDS Naturals, Sequences, TLC
 
 CONSTANTS Octets,     \* {"A", "L", "T", "X"}
-          MaxLen, OutSizes, UseSpill
+          MaxLen, OutSizes, UseSpill,
+          EmptyReadRewinds   \* rejected design: a read with an empty buffer treats the spill buffer as drained
 
 \* output symbols: "a" (1 octet wide), "c" (a two-octet character, 3 octets wide in UTF-8), "r" (replacement, 3 wide)
 Width(sym) == IF sym = "a" THEN 1 ELSE 3
@@ -59,7 +60,11 @@ RECURSIVE Fit(_, _)
 Fit(q, n) == IF q = <<>> \/ Width(Head(q)) > n THEN <<>> ELSE <<Head(q)>> \o Fit(Tail(q), n - Width(Head(q)))
 Read == \E n \in OutSizes :
           /\ outq # <<>> \/ spill # <<>>
-          /\ IF spill # <<>>
+          /\ IF n = 0
+             THEN \* an empty read hands out nothing and loses nothing (in the rejected design what is parked is dropped)
+                  /\ spill' = IF EmptyReadRewinds THEN <<>> ELSE spill
+                  /\ UNCHANGED <<delivered, outq, failed>>
+             ELSE IF spill # <<>>
              THEN \* serve from the spill buffer first (octet-wise; modelled as whole symbols once enough room was offered)
                   /\ delivered' = delivered \o spill /\ spill' = <<>> /\ outq' = outq /\ failed' = failed
              ELSE LET f == Fit(outq, n) IN
